@@ -209,3 +209,15 @@ Definition qc_verifies (c : cfg) (known : list binfo) (q : qcert) : bool :=
   | Some b => N.eqb (b_view b) (q_view q) && verify_sigs (c_members c) (q_hash q) (q_sigs q)
   | None => false
   end.
+
+(* ---- block availability over time ----
+   What sender.RequestBlock can fetch changes while the collector runs (a block is shown to the other replicas
+   later; peers that had it are gone).  [run_av] gives every stimulus the set of blocks that can be fetched at
+   that moment; everything else is [step]. *)
+Definition with_remote (c : cfg) (r : list binfo) : cfg := mkCfg (c_members c) r (c_patched c).
+Fixpoint run_av (c : cfg) (st : vstate) (es : list (list binfo * event)) : vstate * list (list qcert) :=
+  match es with
+  | [] => (st, [])
+  | (r, e) :: rest => let '(st1, o) := step (with_remote c r) st e in
+                      let '(st2, os) := run_av c st1 rest in (st2, o :: os)
+  end.
